@@ -76,6 +76,15 @@ Theorem C14_adopt_is_list_state : forall vals, adopt vals = fst (ctor_list vals)
 Proof. exact adopt_is_list_state. Qed.
 Print Assumptions C14_adopt_is_list_state.
 
+(* Histories containing aliasing resizes and adoptions: with respect to returned values and contents they are the
+   histories of ordinary operations obtained by replacing resize(n, a[i]) with resize(n, v) for the value v that element
+   holds at that moment and the adopting constructor with the initializer-list constructor; so they refine the
+   value-semantics specification as well. *)
+Theorem C14_alias_histories : forall cls ops,
+  map view_arr (arr_trace_d true afixed cls aenv0 ops) = map view_sarr (spec_trace cls senv0 (adesugar_all cls aenv0 ops)).
+Proof. exact alias_refines_values. Qed.
+Print Assumptions C14_alias_histories.
+
 Example C14_nonvacuous :
   map view_arr (arr_trace afixed true aenv0 [[3;0;7;8;9];[4;1;0];[11;1;0;5];[9;0;1];[10;0;3;4];[12;0];[12;1]])
   = [(Some [], [3;7;8;9;-1;-1]); (Some [], [3;7;8;9;3;7;8;9;-1]); (Some [], [3;7;8;9;3;5;8;9;-1]);
